@@ -277,6 +277,7 @@ pub struct RunResult {
     pub ops_done: usize,
     pub boundary_fills: u64,
     pub dropped_unwinding: bool,
+    pub after_a_writer_lost_to_a_sink_panic: bool,
 }
 
 /// Apply `ops` to a fresh writer over a sink with `policy`; judge after every operation.
@@ -284,6 +285,20 @@ pub fn run_history(ops: &[WOp], policy: SinkPolicy, sink_seed: u64, cap: usize, 
     let failing_sink = !policy.fail_at.is_empty() || !policy.zero_at.is_empty();
     let policy_panic_at_none = policy.panic_at.is_none();
     let mut dropped_unwinding = false;
+    // one run in five: an earlier writer on this thread lost its sink to a panic in the middle of a flush
+    // and was dropped by the unwind with bytes still in its buffer - none of that may leak into this one
+    let mut after_a_writer_lost_to_a_sink_panic = false;
+    if !hostile && sink_seed % 5 == 1 {
+        let mut pp = SinkPolicy::accept_all();
+        pp.panic_at = Some(1);
+        let psink = Sink::new(pp, 0);
+        let r = sut_caught(move || {
+            let mut a = DeferredWriter::from_write(psink);
+            a.write_all_defer_err(b"BYTES-OF-AN-EARLIER-WRITER-WHOSE-SINK-PANICKED;");
+            let _ = a.flush();
+        });
+        after_a_writer_lost_to_a_sink_panic = r.is_err();
+    }
     let sink = Sink::new(policy, sink_seed);
     let mut w = Some(DeferredWriter::from_write(sink.clone()));
     let mut expected: Vec<u8> = vec![];
@@ -683,6 +698,7 @@ pub fn run_history(ops: &[WOp], policy: SinkPolicy, sink_seed: u64, cap: usize, 
         ops_done,
         boundary_fills,
         dropped_unwinding,
+        after_a_writer_lost_to_a_sink_panic,
     }
 }
 
@@ -827,6 +843,9 @@ impl Monitor for C11 {
             rep.count("boundary_fills", r.boundary_fills);
             if r.dropped_unwinding {
                 rep.inc("writers_dropped_by_unwinding_from_a_client_panic");
+            }
+            if r.after_a_writer_lost_to_a_sink_panic {
+                rep.inc("runs_after_an_earlier_writer_lost_its_sink_to_a_panic");
             }
             for t in 0..12 {
                 if r.int_types & (1 << t) != 0 {
